@@ -25,6 +25,8 @@ def quick_cfgs():
             cfg('NAIVE_VECTOR', z2=1, swaps=1, mapc=1, rmcol=1), cfg('VECTOR', z2=1, swaps=1), cfg('VECTOR', z2=0, swaps=1, mapc=1), cfg('HEAP', z2=0, swaps=1), cfg('UNORDERED_SET', z2=1, swaps=1), cfg('INTRUSIVE_SET', z2=0, swaps=1), cfg('LIST', z2=0, comp=1, rows=1, rmrows=1), cfg('INTRUSIVE_LIST', z2=1, comp=1), cfg('UNORDERED_SET', z2=0, comp=1)]
     # the column order (operator<) of every column type is only used by the compressed matrix: one Z_p compressed instantiation per type
     out += [cfg(c, z2=0, comp=1) for c in COLS if c not in ('HEAP', 'UNORDERED_SET')] + [cfg('SET', z2=1, comp=1), cfg('VECTOR', z2=1, comp=1)]
+    # rows stored as sets keep copies of the entries (coefficients included): Z_p, one per merge-based column type
+    out += [cfg('LIST', z2=0, rows=1, intr=0), cfg('SET', z2=0, rows=1, intr=0), cfg('INTRUSIVE_LIST', z2=0, rows=1, intr=0, rmrows=1), cfg('INTRUSIVE_SET', z2=0, rows=1, intr=0, rmrows=1), cfg('NAIVE_VECTOR', z2=0, rows=1, intr=0)]
     return out
 
 
